@@ -1265,6 +1265,13 @@ MODULES = {
 }
 
 
+# C18 / C19 / C20 modules (Io, Cli, DictBuilder) live in tools/extract_misc.py
+sys.path.insert(0, os.path.dirname(os.path.abspath(__file__)))
+import extract_misc  # noqa: E402
+
+extract_misc.register(MODULES, sys.modules[__name__])
+
+
 def main():
     os.makedirs(OUT, exist_ok=True)
     errors = []
